@@ -256,6 +256,8 @@ func (d *Driver) Apply(op Op) bool {
 		return d.byzVote(op)
 	case "split":
 		return d.Split(op)
+	case "amnesia":
+		return d.Amnesia(op)
 	}
 	return false
 }
@@ -618,4 +620,288 @@ func (d *Driver) RunFair(until int64, maxSteps int) bool {
 		d.Sync()
 	}
 	return reached()
+}
+
+// ---------------------------------------------------------------------------------------
+// scripted attack: "amnesia" (lock violation across rounds)
+
+func (d *Driver) deliverWhere(keep func(f Flight) bool) int {
+	n := 0
+	for {
+		found := -1
+		for i, f := range d.Net.InFlight {
+			if keep(f) && d.Net.Nodes[f.To].Alive {
+				found = i
+				break
+			}
+		}
+		if found < 0 {
+			return n
+		}
+		d.Net.Deliver(found, false)
+		d.Stats.Delivered++
+		n++
+	}
+}
+
+func (d *Driver) ownAll(n *Node) {
+	for len(n.Own) > 0 && n.Alive {
+		d.Net.OwnStep(n, 0)
+		d.Stats.Own++
+	}
+}
+
+func (d *Driver) fireNewest(n *Node) bool {
+	rs := n.RS()
+	n.Ctl.Ticker.DropStale(rs.Height, rs.Round, rs.Step)
+	p := n.Ctl.Ticker.Pending()
+	if len(p) == 0 {
+		return false
+	}
+	d.Stats.Timeouts++
+	return d.Net.Timeout(n, len(p)-1)
+}
+
+func isVoteOf(f Flight, typ byte) bool {
+	vm, ok := f.Msg.(*pbft.VoteMessage)
+	return ok && vm.Vote.Type == typ
+}
+
+func in(n *Node, set []*Node) bool {
+	for _, m := range set {
+		if m == n {
+			return true
+		}
+	}
+	return false
+}
+
+// Amnesia scripts the attack that a validator forgetting its lock enables: at round 0 a group of
+// "lockers" sees a polka for block X (with the Byzantine prevotes) and precommits it, one of them
+// (B) also receives the Byzantine precommits and commits X; the other honest nodes see +2/3-any
+// without a majority and move to round 1, where a fresh block Y is proposed and the Byzantine
+// validators vote for Y. With correct locking Y cannot gather a polka (the lockers prevote X);
+// if a locker prevotes Y, Y is committed by the others: a fork. Equal voting powers only.
+func (d *Driver) Amnesia(op Op) bool {
+	net := d.Net
+	hs := d.honestAlive()
+	bs := d.byz()
+	N := len(net.Nodes)
+	f := len(bs)
+	for _, p := range net.Cfg.Powers {
+		if p != net.Cfg.Powers[0] {
+			return false
+		}
+	}
+	if f == 0 || len(hs) != N-f || len(hs) < 3 {
+		return false
+	}
+	// quiesce: everybody at the start of the same height
+	var top int64
+	for _, n := range hs {
+		if hh := n.RS().Height; hh > top {
+			top = hh
+		}
+	}
+	if top > 1 {
+		d.RunFair(top-1, 3000)
+	}
+	for i := 0; i < 400 && (len(net.InFlight) > 0 || func() bool {
+		for _, n := range hs {
+			if len(n.Own) > 0 {
+				return true
+			}
+		}
+		return false
+	}()); i++ {
+		d.FairStep()
+	}
+	H := hs[0].RS().Height
+	for _, n := range hs {
+		rs := n.RS()
+		if rs.Height != H || rs.Step != pbft.RoundStepNewHeight {
+			return false
+		}
+	}
+	q := N*2/3 + 1
+	L := q - f
+	if L < 1 || L >= len(hs) {
+		return false
+	}
+	rot := mod(op.A, len(hs))
+	order := append(append([]*Node{}, hs[rot:]...), hs[:rot]...)
+	lockers, others := order[:L], order[L:]
+	B := lockers[0]
+	vals := hs[0].RS().Validators
+	// ---- round 0
+	for _, n := range hs {
+		d.fireNewest(n)
+	}
+	pid := -1
+	for _, n := range net.Nodes {
+		if bytes.Equal(n.Addr, vals.Proposer().Address) {
+			pid = n.ID
+		}
+	}
+	var X types.BlockID
+	if pid >= 0 && net.Nodes[pid].Honest {
+		d.ownAll(net.Nodes[pid])
+		rs := net.Nodes[pid].RS()
+		if rs.ProposalBlock == nil {
+			return false
+		}
+		X = types.BlockID{Hash: rs.ProposalBlock.Hash(), PartsHeader: rs.ProposalBlockParts.Header()}
+	} else {
+		st := hs[0].CS.GetState()
+		var lc *types.Commit
+		if H > 1 {
+			lc = hs[0].RS().LastCommit.MakeCommit()
+		}
+		blk, parts := MakeBlock(st, lc, pid, []types.Tx{types.Tx(fmt.Sprintf("amnesia-x-%d", H))}, net.Cfg.PartSize)
+		X = types.BlockID{Hash: blk.Hash(), PartsHeader: parts.Header()}
+		for _, m := range ProposalMsgs(pid, H, 0, parts, -1, types.BlockID{}) {
+			net.Broadcast(pid, m)
+		}
+	}
+	d.learn(X)
+	isData := func(fl Flight) bool {
+		switch fl.Msg.(type) {
+		case *pbft.ProposalMessage, *pbft.BlockPartMessage:
+			return true
+		}
+		return false
+	}
+	d.deliverWhere(isData)
+	for _, n := range hs {
+		d.ownAll(n) // prevotes for X
+	}
+	// lockers: every honest prevote + the Byzantine prevotes for X -> polka
+	d.deliverWhere(func(fl Flight) bool { return isVoteOf(fl, types.VoteTypePrevote) && in(net.Nodes[fl.To], lockers) })
+	for _, b := range bs {
+		v := SignVote(b.ID, vals, H, 0, types.VoteTypePrevote, X)
+		for _, n := range lockers {
+			net.Inject(n.ID, b.ID, &pbft.VoteMessage{Vote: v})
+		}
+	}
+	// the others: X prevotes up to q-1 (own included), then Byzantine nil prevotes: +2/3 any, no polka
+	for _, n := range others {
+		have := 1
+		for {
+			idx := -1
+			for i, fl := range net.InFlight {
+				if fl.To == n.ID && isVoteOf(fl, types.VoteTypePrevote) {
+					idx = i
+					break
+				}
+			}
+			if idx < 0 || have >= q-1 {
+				break
+			}
+			net.Deliver(idx, false)
+			have++
+		}
+		for _, b := range bs {
+			net.Inject(n.ID, b.ID, &pbft.VoteMessage{Vote: SignVote(b.ID, vals, H, 0, types.VoteTypePrevote, types.BlockID{})})
+		}
+		if n.RS().Step == pbft.RoundStepPrevoteWait {
+			d.fireNewest(n) // prevote-wait timeout -> precommit nil
+		}
+	}
+	// drop the remaining prevotes addressed to the others (they never arrive)
+	for i := 0; i < len(net.InFlight); {
+		if fl := net.InFlight[i]; isVoteOf(fl, types.VoteTypePrevote) && in(net.Nodes[fl.To], others) {
+			net.Drop(i)
+			continue
+		}
+		i++
+	}
+	for _, n := range hs {
+		d.ownAll(n) // precommits: X from the lockers, nil from the others
+	}
+	for _, n := range lockers {
+		if n.RS().LockedBlock == nil {
+			return false // script derailed
+		}
+	}
+	d.Stats.Locked = true
+	// B gets the lockers' precommits and the Byzantine precommits for X: commits X
+	d.deliverWhere(func(fl Flight) bool {
+		return fl.To == B.ID && isVoteOf(fl, types.VoteTypePrecommit) && in(net.Nodes[fl.From], lockers)
+	})
+	for _, b := range bs {
+		net.Inject(B.ID, b.ID, &pbft.VoteMessage{Vote: SignVote(b.ID, vals, H, 0, types.VoteTypePrecommit, X)})
+	}
+	// everybody else gets all honest precommits (no majority), waits, moves to round 1
+	rest := append(append([]*Node{}, lockers[1:]...), others...)
+	d.deliverWhere(func(fl Flight) bool { return isVoteOf(fl, types.VoteTypePrecommit) && in(net.Nodes[fl.To], rest) })
+	for _, n := range rest {
+		if n.RS().Step == pbft.RoundStepPrecommitWait {
+			d.fireNewest(n)
+		}
+	}
+	for _, n := range rest {
+		if n.RS().Height != H || n.RS().Round != 1 {
+			return false
+		}
+	}
+	// ---- round 1: a fresh block Y from an unlocked honest proposer or from a Byzantine one
+	v1 := rest[0].RS().Validators
+	p1 := -1
+	for _, n := range net.Nodes {
+		if bytes.Equal(n.Addr, v1.Proposer().Address) {
+			p1 = n.ID
+		}
+	}
+	if p1 < 0 || in(net.Nodes[p1], lockers) {
+		d.Stats.Splits++
+		return true // the round-1 proposer is a locker (it re-proposes X) or B: the attack ends here
+	}
+	var Y types.BlockID
+	if net.Nodes[p1].Honest {
+		d.ownAll(net.Nodes[p1])
+		rs := net.Nodes[p1].RS()
+		if rs.ProposalBlock == nil {
+			return true
+		}
+		Y = types.BlockID{Hash: rs.ProposalBlock.Hash(), PartsHeader: rs.ProposalBlockParts.Header()}
+	} else {
+		st := rest[0].CS.GetState()
+		var lc *types.Commit
+		if H > 1 {
+			lc = rest[0].RS().LastCommit.MakeCommit()
+		}
+		blk, parts := MakeBlock(st, lc, p1, []types.Tx{types.Tx(fmt.Sprintf("amnesia-y-%d", H))}, net.Cfg.PartSize)
+		Y = types.BlockID{Hash: blk.Hash(), PartsHeader: parts.Header()}
+		for _, m := range ProposalMsgs(p1, H, 1, parts, -1, types.BlockID{}) {
+			for _, n := range rest {
+				net.Send(p1, n.ID, m)
+			}
+		}
+	}
+	d.learn(Y)
+	d.deliverWhere(func(fl Flight) bool { return isData(fl) && in(net.Nodes[fl.To], rest) })
+	for _, n := range rest {
+		d.ownAll(n) // prevotes of round 1
+	}
+	d.deliverWhere(func(fl Flight) bool { return isVoteOf(fl, types.VoteTypePrevote) && in(net.Nodes[fl.To], rest) })
+	for _, b := range bs {
+		for _, typ := range []byte{types.VoteTypePrevote, types.VoteTypePrecommit} {
+			v := SignVote(b.ID, v1, H, 1, typ, Y)
+			for _, n := range rest {
+				net.Send(b.ID, n.ID, &pbft.VoteMessage{Vote: v})
+			}
+		}
+	}
+	d.deliverWhere(func(fl Flight) bool { return isVoteOf(fl, types.VoteTypePrevote) && in(net.Nodes[fl.To], rest) })
+	for _, n := range rest {
+		if n.RS().Step == pbft.RoundStepPrevoteWait {
+			d.fireNewest(n)
+		}
+		d.ownAll(n)
+	}
+	d.deliverWhere(func(fl Flight) bool { return isVoteOf(fl, types.VoteTypePrecommit) && in(net.Nodes[fl.To], rest) })
+	d.Stats.Splits++
+	d.Stats.Equivocations++
+	d.logf("amnesia at h%d: lockers %d, B=n%d, X=%x Y=%x", H, len(lockers), B.ID, fp(X.Hash), fp(Y.Hash))
+	return true
 }
